@@ -23,13 +23,13 @@ def check(run):
                 "exact top-K, exact count) and every step of traced real collections (collect / threshold handed to "
                 "replace and skip_to_quality / final ranking / len) validated by CollectorTrace.tla")
     cases, meta = c01.build_cases(run, rng, 14 if quick else 150, 30 if quick else 40, ndocs=(6, 14), depth=3,
-                                  paths=("unlimited", "limited", "terms"), scored_only=True, cmp="full", kinds=("ranked", "error"), ops=NOFUZZY, alt=True,
+                                  paths=("unlimited", "limited", "terms"), scored_only=True, cmp="full", kinds=("ranked", "error", "matchedterms"), ops=NOFUZZY, alt=True,
                                   limits=(1, 2, 3, 4, 6))
     # the rewrite chain Union -> AndMaybe -> Intersection of replace(): unions and optional clauses over
     # terms only, more documents, small limits, so that replacements happen repeatedly within one search
     c2, m2 = c01.build_cases(run, rng, 10 if quick else 100, 30 if quick else 40, ndocs=(10, 20), depth=3,
                              paths=("unlimited", "limited", "terms"), scored_only=True, cmp="full",
-                             kinds=("ranked", "error"), ops=["term", "every", "or", "andmaybe", "and"], alt=True,
+                             kinds=("ranked", "error", "matchedterms"), ops=["term", "every", "or", "andmaybe", "and"], alt=True,
                              limits=(1, 2, 3, 4))
     cases += c2
     meta += m2
